@@ -16,7 +16,7 @@ META = {
     "engine": "E3 reference model (construction log + independent binding model)",
     "rule": (
         "kind=chain: chains of 2-10 generated recording classes (controller head, decorators, pool or "
-        "composite-like tail; signatures mixing positional, defaulted, keyword-only, *args, **kwargs) under a "
+        "composite-like tail, a fifth of them with a truth value of False; signatures mixing positional, defaulted, keyword-only, *args, **kwargs) under a "
         "random parenthesisation of the >> operators, 3 tail forms (instance / template / curried template) "
         "and each element's arguments split over 0-4 template calls, every chain built twice from the same "
         "template and pending sub-chain objects; kind=paren: ALL parenthesisations for "
@@ -248,7 +248,7 @@ def gen_chain(rnd, spec):
         elements.append({"kind": kind, "spec": sp, "service": rnd.random() < 0.2,
                          "calls": split_calls(rnd, positionals, keywords),
                          "args": [positionals, keywords]})
-    return {"kind": "chain", "elements": elements, "tail_form": rnd.choice(["instance", "template", "curried"]),
+    return {"kind": "chain", "elements": elements, "falsy_tail": rnd.random() < 0.2, "tail_form": rnd.choice(["instance", "template", "curried"]),
             "tree": gen_tree(rnd, 0, n)}
 
 
@@ -257,6 +257,10 @@ def run_chain(case, result):
     elements = case["elements"]
     n = len(elements)
     classes = [make_class(e["kind"], e["spec"], e["service"]) for e in elements]
+    if case.get("falsy_tail"):
+        # the pool is also an (empty) container, e.g. a composite without children yet: its truth value is False
+        classes[-1] = type("Empty" + classes[-1].__name__, (classes[-1],), {"__len__": lambda self: 0})
+        result.count("chains_with_a_falsy_pool")
     items = []
     try:
         for i, (e, cls) in enumerate(zip(elements, classes)):
@@ -745,7 +749,7 @@ def run_shard(spec):
 def finish(total, tier):
     for name in ("chains_checked", "chains_rebuilt_from_reused_templates", "chains_tail_instance", "chains_tail_template", "chains_tail_curried",
                  "parenthesisations_exhaustive", "template_calls_checked", "calls_bindable", "calls_unbindable",
-                 "shipped_chains_checked", "long_chains_checked", "eager_cases_with_short_lived_class", "eager_cases_with_plain_subclass", "eager_cases_with_plain_subclass_of_service_class"):
+                 "shipped_chains_checked", "long_chains_checked", "chains_with_a_falsy_pool", "eager_cases_with_short_lived_class", "eager_cases_with_plain_subclass", "eager_cases_with_plain_subclass_of_service_class"):
         if not total.counters.get(name) and not total.violations:
             total.inconc("monitor never observed: " + name)
 
